@@ -81,6 +81,7 @@ type Unit struct {
 	inlineStack  map[*ssa.Function]bool
 	oldMem       MemState
 	mayPanic     bool
+	nonBlocking  bool // flag nonblocking: a channel send must find room in the queue
 	noEscapeObjs []*Term // object ids of parameters under a noescape clause
 	explicitPanicOK bool // flag explicitpanic: panic(...) statements (internal consistency checks) are not obligations
 	lemmaMode    bool
